@@ -302,11 +302,35 @@ class BodyIndex:
                     return frozenset([('U', e['i'])])
             return frozenset([('L', 1)])
         if any(e['k'] == 'deref' for e in proj):
-            return self.prov(l, seen)
+            base = self.prov(l, seen)
+            # `(*env).i` with env a reference to a closure value built in this body (a closure body spliced at its call): the
+            # captured variable i, not the closure value
+            k = next((j for j, e in enumerate(proj) if e['k'] == 'deref'), None)
+            fld = next((e['i'] for e in proj[k + 1:] if e['k'] == 'field'), None) if k is not None else None
+            if fld is not None and any(r[0] == 'L' and body.local_ty(r[1]).startswith('{closure@') for r in base):
+                out = set()
+                for r in base:
+                    cap = self._captured_roots(r[1], fld, seen) if r[0] == 'L' and body.local_ty(r[1]).startswith('{closure@') else None
+                    out |= cap if cap is not None else {r}
+                return frozenset(out)
+            return base
         r = frozenset([('L', l)])
         if holds_mut(body.local_ty(l)) and l > body.argc:
             r = r | self.prov(l, seen)
         return r
+
+    def _captured_roots(self, cl, i, seen):
+        """roots of captured variable i of the closure value held in local cl (None when it is not built by one aggregate here)"""
+        ds = [d for d in self.defs.get(cl, []) if d[2] != 'call' and d[3]['rv']['k'] == 'aggregate' and d[3]['rv']['kind'].get('a') == 'closure']
+        if len(ds) != 1 or len(self.defs.get(cl, [])) != 1:
+            return None
+        ops = ds[0][3]['rv']['ops']
+        if not (0 <= i < len(ops)) or ops[i]['k'] not in ('copy', 'move'):
+            return None
+        pl = ops[i]['place']
+        if holds_mut(pl['ty']) or holds_mut(self.body.local_ty(pl['l'])):
+            return self.place_roots_value(pl, seen | {cl})
+        return frozenset([('L', pl['l'])])
 
     def prov(self, l, seen=frozenset()):
         """roots that local l (a reference / iterator over references / tuple of those) may point into"""
@@ -369,7 +393,20 @@ class BodyIndex:
             for e in p['p']:
                 if e['k'] == 'field':
                     return frozenset([('U', e['i'])])
-        return self.prov(l, seen)
+        base = self.prov(l, seen)
+        fld = next((e['i'] for e in p['p'] if e['k'] == 'field'), None)
+        if fld is not None and p['p'] and p['p'][0]['k'] in ('deref', 'field'):
+            # a captured reference read back from a closure value built in this body: `copy (*env).i`
+            cands = set(base)
+            if body.local_ty(l).startswith('{closure@') and p['p'][0]['k'] == 'field':
+                cands.add(('L', l))
+            if any(r[0] == 'L' and body.local_ty(r[1]).startswith('{closure@') for r in cands):
+                out = set()
+                for r in cands:
+                    cap = self._captured_roots(r[1], fld, seen) if r[0] == 'L' and body.local_ty(r[1]).startswith('{closure@') else None
+                    out |= cap if cap is not None else ({r} if r in base else set())
+                return frozenset(out)
+        return base
 
     CONSUMERS = ('std::iter::Iterator::for_each', 'std::iter::Iterator::try_for_each', 'std::iter::Iterator::map', 'std::iter::Iterator::inspect')
 
